@@ -13,6 +13,7 @@ mod c06;
 mod c11;
 mod c10;
 mod c03;
+mod c13;
 
 use common::Tier;
 
@@ -36,6 +37,7 @@ fn main() {
         "C11" => c11::run(tier),
         "C10" => c10::run(tier),
         "C03" => c03::run(tier),
+        "C13" => c13::run(tier),
         "bind" => { let r = samples::bind_or_die(); println!("rsig ok {} rejected {} ; rdl validations {} exec-error {} skipped {:?}", r.rsig_accepted, r.rsig_rejected, r.rdl_validations, r.rdl_exec_error_validations, r.rdl_skipped); }
         other => {
             eprintln!("unknown property {other}");
